@@ -12,6 +12,9 @@
 #define REF_MAXN 16
 #include "common.h"
 #include "ref_binson.h"
+#ifdef TRANSCRIBE
+#include "binson_writer.h"
+#endif
 
 #ifndef HEAD
 #define HEAD 16
@@ -110,6 +113,30 @@ void harness(void)
                 CHECK(ty == BINSON_TYPE_BOOLEAN && bo == (t.ival != 0), "C03 boolean exact");
                 break;
             }
+#ifdef TRANSCRIBE
+            {
+                /* C10 for lengths no transcription query can hold in memory: write the decoded value into a 9-byte writer
+                   buffer. The writer stores the header (type byte + length / value bytes) and only COUNTS a payload that
+                   does not fit, so the header bytes and the total size are decided for every length up to INT32_MAX. */
+                EXACT_BYTES(wb, 9);
+                binson_writer w;
+                binson_writer_init(&w, wb, 9);
+                bool wr;
+                switch (t.kind) {
+                case RK_STRING: wr = binson_write_string_with_len(&w, (const char *) sv->bptr, sv->bsize); break;
+                case RK_BYTES:  wr = binson_write_bytes(&w, bv->bptr, bv->bsize); break;
+                case RK_INT:    wr = binson_write_integer(&w, iv); break;
+                case RK_DOUBLE: wr = binson_write_double(&w, dv); break;
+                default:        wr = binson_write_boolean(&w, bo); break;
+                }
+                CHECK(w.buffer_used == t.total, "C10 re-encoding a decoded value takes exactly as many bytes as the canonical input token (any length)");
+                CHECK(wr == (t.total <= 9), "C10 the writer reports success exactly when the token fits");
+                for (size_t i = 0; i < 9; i++) {
+                    if (i < t.hdr && t.hdr <= 9) CHECK(wb[i] == win[pos - base + i], "C10 re-encoded header bytes (type byte, length width, length) equal the input token");
+                    if (i >= t.hdr && i < t.total && t.total <= 9) CHECK(wb[i] == win[pos - base + i], "C10 re-encoded payload bytes equal the input token");
+                }
+            }
+#endif
 #if ROOT == 1
             bbuf *nm = binson_parser_get_name(&p);
             CHECK(nm != NULL && PTR_EQ(nm->bptr, win + 3) && nm->bsize == 1, "C03 name span exact");
